@@ -77,6 +77,7 @@ func c03Template(b *core.B, class, in string) {
 		b.ViolateIn("nil-template-nil-error", in, "plush.NewTemplate returned (nil, nil)")
 	}
 	if err != nil {
+		c03Sentinel(b, in)
 		// the other public entry points parse the same text: they must report an error too
 		var o1, o2 string
 		var e1, e2 error
@@ -281,6 +282,27 @@ func c03Run(b *core.B) {
 		} else {
 			b.Count("deep-ladder:rejected")
 		}
+		c03Sentinel(b, lad[:40]+"...")
+	}
+}
+
+// c03Sentinel: parsing is total for every text whatever was parsed before it. After an
+// input that was rejected (too deep, malformed), an ordinary template parses and runs.
+func c03Sentinel(b *core.B, after string) {
+	const text = "a<%= 1 %>b<%= if (true) { %>c<% } %><% let x = [1, 2] %><%= x[1] %>"
+	var out string
+	var err error
+	pan := core.Guard(func() {
+		var t *plush.Template
+		if t, err = plush.NewTemplate(text); err == nil {
+			out, err = t.Exec(plush.NewContext())
+		}
+	})
+	b.Count("ordinary-template-parsed-after-a-rejected-input")
+	if pan != nil {
+		b.ViolateIn("after-a-rejected-input|"+pan.Sig(), "first "+after+"  then "+text, pan.Value)
+	} else if err != nil || out != "a1bc2" {
+		b.ViolateIn("after-a-rejected-input|ordinary-template-fails", "first "+after+"  then "+text, fmt.Sprintf("out=%q err=%v", out, err))
 	}
 }
 
